@@ -224,6 +224,63 @@ def suite_by_name(name):
     return next(s for s in SUITES if s.name == name)
 
 
+def reread_with_columns(r, n_cases):
+    """a written table re-read with a request for further columns to carry over (some present in the file, some not, in any order) and
+    written again: rectangular, one value per header, the carried columns under their own header, an absent one empty (monitor only)"""
+    import tempfile
+    from picked_group_fdr.results import ProteinGroupResult, ProteinGroupResults
+    from picked_group_fdr.parsers import maxquant as mqp
+    d = tempfile.mkdtemp(prefix="c13reread_", dir=core.scratch())
+    n = 0
+    for k in range(n_cases):
+        rng = r.rng
+        extra = rng.sample(["Gene names", "Fasta headers", "Intensity E1", "Sequence coverage [%]", "iBAQ"], rng.randint(0, 4))
+        rows = []
+        for i in range(rng.randint(1, 4)):
+            cells = {h: rng.choice(["", "x y", "a;b", "7.5", 'q"q', "t\tt"]) for h in extra}
+            rows.append((f"P{i};Q{i}", cells))
+        pgr = ProteinGroupResults([ProteinGroupResult(proteinIds=ids, majorityProteinIds=ids, peptideCountsUnique="1;1", bestPeptide="PEPTIDEK",
+                                                      numberOfProteins=2, qValue=0.001 * (i + 1), score=7.5 - i,
+                                                      extraColumns=[cells[h] for h in extra]) for i, (ids, cells) in enumerate(rows)])
+        pgr.append_headers(extra)
+        first = os.path.join(d, f"first_{k}.txt")
+        second = os.path.join(d, f"second_{k}.txt")
+        pgr.write(first)
+        absent = rng.sample(["Mol. weight [kDa]", "LFQ intensity E9", "Gene names ", "gene names"], rng.randint(0, 2))
+        wanted = [h for h in extra if rng.random() < 0.8] + absent
+        rng.shuffle(wanted)
+        n += 1
+        problem = None
+        try:
+            back = mqp.parse_mq_protein_groups_file(first, additional_headers=list(wanted))
+            back.write(second)
+            table = read_cells(second)
+            if len(set(table[0])) != len(table[0]):
+                problem = f"repeated header in {table[0]}"
+            elif any(len(row) != len(table[0]) for row in table[1:]):
+                problem = f"a row has {[len(row) for row in table[1:]]} cells under {len(table[0])} headers"
+            elif len(table) != len(rows) + 1:
+                problem = f"{len(table) - 1} rows for {len(rows)} groups"
+            else:
+                for h in wanted:
+                    col = table[0].index(h) if h in table[0] else None
+                    got = [row[col] for row in table[1:]] if col is not None else None
+                    want = [cells.get(h, "") for _, cells in rows]
+                    if got != want:
+                        problem = f"column {h!r} carried over as {got}, the file read holds {want}"
+                        break
+                if problem is None and [row[0] for row in table[1:]] != [ids for ids, _ in rows]:
+                    problem = "identifier column changed"
+        except Exception as e:
+            problem = f"raised {type(e).__name__}: {e}"[:160]
+        if problem:
+            r.violation("property-failure", {"suite": "reread_with_columns", "columns_in_the_file": extra, "columns_requested": wanted,
+                                             "rows": [[ids, cells] for ids, cells in rows], "problem": problem}, True,
+                        f"reread_with_columns: file with {extra}, re-read asking for {wanted}: {problem}"[:400])
+            return n
+    return n
+
+
 def long_cells(r):
     """a very large group: identifier cells far beyond the csv module's default field limit (131072 characters) are written, read back
     and filtered like any other cell (monitor only: the strings are too long for a Coq literal)"""
@@ -269,4 +326,4 @@ def run(r: core.Runner):
     ]
     for s in SUITES:
         r.run_suite(s, max_report=2)
-    r.traces = (r.traces or 0) + long_cells(r)
+    r.traces = (r.traces or 0) + (long_cells(r) or 0) + reread_with_columns(r, core.tier_n(r.tier, 60, 800))
